@@ -293,7 +293,10 @@ class LocationProtocol(HDAP):
             )
         elif opcode == LocationProtocolSpecificService.StandardRequest:
             return LocationProtocol(
-                opcode=opcode, request_id=data[5:9], radio_ip=data[9:13]
+                opcode=opcode,
+                request_id=data[5:9],
+                radio_ip=data[9:13],
+                is_reliable=is_reliable,
             )
 
         raise ValueError(f"LP {opcode} not yet implemented")
